@@ -11,14 +11,20 @@
 (*    ev   |-> sequence of events <<kind, arg>> (see SqlScope),            *)
 (*    strs |-> sequence of <<event index, code points>>, the text of each  *)
 (*             distinct string-literal token with the index of its first   *)
-(*             "str" event]                                                *)
+(*             "str" event,                                                *)
+(*    want |-> sequence of code-point sequences: strings of the program    *)
+(*             that the script must carry as literals - for each of them   *)
+(*             some token of strs must be one literal of the dialect that  *)
+(*             DECODES to exactly that string (StrLit!Decode)]             *)
 (* Output: one tuple <<"V", json>> per line with                           *)
 (*   [id, ok, clause, detail, at]                                          *)
 (* clause: "bracket" (unbalanced bracket of kind detail at event at),      *)
 (* "alias" (unresolved alias detail), "with-order" (table detail used      *)
 (* before its WITH / CREATE), "placeholder" (leak of kind detail),         *)
 (* "string" (token at event at is not one literal of the dialect; detail   *)
-(* is StrLit's reason).  POSTCONDITION: every line judged, none bad.       *)
+(* is StrLit's reason), "string-content" (no literal of the script decodes *)
+(* to the wanted string number `at` of want; detail = how many tokens).    *)
+(* POSTCONDITION: every line judged, none bad.                             *)
 (***************************************************************************)
 EXTENDS SqlScope, Json, IOUtils, TLCExt
 
@@ -30,6 +36,13 @@ Lines == TLCGet(100)
 
 BadStrs(L) == {k \in 1..Len(L.strs) : ~SL!IsOneLiteral(L.d, L.strs[k][2])}
 
+(* The strings every well-formed token of the script denotes.              *)
+Denoted(L) == {SL!Decode(L.d, L.strs[k][2]) :
+                 k \in {j \in 1..Len(L.strs) : SL!IsOneLiteral(L.d, L.strs[j][2])}}
+
+Missing(L) == LET den == Denoted(L)
+              IN {k \in 1..Len(L.want) : L.want[k] \notin den}
+
 Verdict(L, fin) ==
   LET bad == BadStrs(L)
       k == CHOOSE x \in bad : \A y \in bad : L.strs[x][1] <= L.strs[y][1]
@@ -37,8 +50,15 @@ Verdict(L, fin) ==
   IN IF strFirst
      THEN [id |-> L.id, ok |-> FALSE, clause |-> "string",
            detail |-> SL!Lex(L.d, L.strs[k][2]).why, at |-> L.strs[k][1]]
-     ELSE [id |-> L.id, ok |-> fin.err.clause = "", clause |-> fin.err.clause,
+     ELSE IF fin.err.clause # ""
+     THEN [id |-> L.id, ok |-> FALSE, clause |-> fin.err.clause,
            detail |-> fin.err.detail, at |-> fin.err.at]
+     ELSE LET miss == Missing(L)
+          IN IF miss # {}
+             THEN [id |-> L.id, ok |-> FALSE, clause |-> "string-content",
+                   detail |-> ToString(Len(L.strs)) \o " tokens",
+                   at |-> CHOOSE x \in miss : \A y \in miss : x <= y]
+             ELSE [id |-> L.id, ok |-> TRUE, clause |-> "", detail |-> "", at |-> 0]
 
 Init ==
   /\ TLCSet(100, ndJsonDeserialize(IOEnv.TRACE_FILE))
